@@ -118,6 +118,9 @@ def values_equal(st, a, b):
         va, vb = strip_opt(a), strip_opt(b)
         inner = values_equal(st, va, vb) if va is not None and vb is not None else F
         return simp(z3.Or(z3.And(na, nb), z3.And(z3.Not(na), z3.Not(nb), inner)))
+    ta, tb = _is_typeof(a), _is_typeof(b)
+    if ta or tb:
+        return typeof_equal(st, a, b, ta, tb)
     if a is None or b is None:
         if a is None and b is None:
             return T
@@ -140,7 +143,16 @@ def values_equal(st, a, b):
         if isinstance(a.cls, ClassInfo) and a.cls is b.cls and a.cls.is_dataclass:
             sa, sb = st.get(a), st.get(b)
             return simp(z3.And([values_equal(st, sa[f[0]], sb[f[0]]) for f in a.cls.fields()]))
+        ka, kb = st.get(a).get("__kind__"), st.get(b).get("__kind__")
+        if ka is not None or kb is not None:
+            return containers_equal(st, a, b, ka, kb)
         return F
+    if isinstance(a, Ref) and isinstance(b, tuple) or isinstance(a, tuple) and isinstance(b, Ref):
+        r, t_ = (a, b) if isinstance(a, Ref) else (b, a)
+        k = st.get(r).get("__kind__")
+        if k is None or k in ("list", "dict", "set"):
+            return F                       # a tuple equals only a tuple
+        raise Unsupported(f"== between a tuple and a {k}")
     if isinstance(a, ClassRef) and isinstance(b, ClassRef):
         return z3.BoolVal(a.cls is b.cls)
     if isinstance(a, tuple) and isinstance(b, tuple):
@@ -163,6 +175,92 @@ def _value_typed(v):
     if isinstance(v, (int, float, str, bytes, tuple)):
         return True
     return isinstance(v, Sym) and v.kind not in _IDENTITY_BY_VALUE_KINDS
+
+
+def _is_typeof(v):
+    return isinstance(v, tuple) and len(v) == 2 and v[0] == "typeof"
+
+
+def _exact_type_name(st, v):
+    """name (builtins) or ClassInfo (classes of the program) of type(v); None when the model does not determine it"""
+    if v is None:
+        return "NoneType"
+    if isinstance(v, bool):
+        return "bool"
+    if isinstance(v, int):
+        return "int"
+    if isinstance(v, float):
+        return "float"
+    if isinstance(v, str):
+        return "str"
+    if isinstance(v, Sym):
+        return {"int": "int", "bool": "bool", "str": "str", "dt": "datetime"}.get(v.kind) or (v.cls if v.kind == "enum" else None)
+    if isinstance(v, Ref):
+        if isinstance(v.cls, ClassInfo):
+            return v.cls
+        if isinstance(v.cls, str) and v.cls.startswith("exc:"):
+            return v.cls[4:]
+        k = st.get(v).get("__kind__")
+        if k in ("list", "dict", "set", "tuple"):
+            return k
+        if k == "glist" and v.cls in ("list", "tuple"):
+            return v.cls
+    if isinstance(v, tuple) and not (v and isinstance(v[0], str)):
+        return "tuple"
+    return None
+
+
+def typeof_equal(st, a, b, ta, tb):
+    """type(x) == T / type(x) is T: an EXACT type test (bool is not int, a subclass is not its base)"""
+    if ta and tb:
+        na, nb = _exact_type_name(st, a[1]), _exact_type_name(st, b[1])
+        if na is None or nb is None:
+            raise Unsupported("type(x) == type(y) for a value whose exact type the model does not determine")
+        return z3.BoolVal(na is nb if isinstance(na, ClassInfo) or isinstance(nb, ClassInfo) else na == nb)
+    tv, other = (a[1], b) if ta else (b[1], a)
+    if other is None:
+        return F                        # a type object is never None
+    if isinstance(other, Opt):
+        raise Unsupported("type(x) compared with a possibly-None value")
+    n = _exact_type_name(st, tv)
+    if n is None:
+        raise Unsupported("type(x) compared for a value whose exact type the model does not determine")
+    if isinstance(other, ClassRef):
+        return z3.BoolVal(n is other.cls)
+    if isinstance(other, ExtRef):
+        return z3.BoolVal(isinstance(n, str) and n == other.name.split(".")[-1])
+    if other is None:
+        return F
+    raise Unsupported(f"type(x) compared with {other!r}")
+
+
+def containers_equal(st, a, b, ka, kb):
+    """== of built-in containers is STRUCTURAL (lists and tuples item by item in order, dicts and sets regardless of order); containers of
+    different types are unequal.  Shapes the engine cannot compare (generic-element lists, container models, open dicts) are rejected"""
+    sa, sb = st.get(a), st.get(b)
+    if ka in ("list", "tuple") and kb in ("list", "tuple"):
+        if ka != kb:
+            return F
+        if len(sa["items"]) != len(sb["items"]):
+            return F
+        return simp(z3.And([values_equal(st, x, y) for x, y in zip(sa["items"], sb["items"])] or [T]))
+    if ka == "dict" and kb == "dict" and not sa["open"] and not sb["open"]:
+        keys = list(sa["e"]) + [k for k in sb["e"] if k not in sa["e"]]
+        conj = []
+        for k in keys:
+            pa, va = sa["e"].get(k, (F, None))
+            pb, vb = sb["e"].get(k, (F, None))
+            both = values_equal(st, va, vb) if k in sa["e"] and k in sb["e"] else F
+            conj.append(z3.Or(z3.And(z3.Not(pa), z3.Not(pb)), z3.And(pa, pb, both)))
+        return simp(z3.And(conj or [T]))
+    if ka == "set" and kb == "set":
+        ia, ib = sa["items"], sb["items"]
+        if all(is_concrete(x) for x in ia + ib):
+            return z3.BoolVal(set(ia) == set(ib))
+        raise Unsupported("== of sets with symbolic members")
+    if {ka, kb} <= {"list", "tuple", "dict", "set"} and ka != kb:
+        return F
+    raise Unsupported(f"== between containers of kind {ka} and {kb}")
 
 
 def identical(st, a, b):
@@ -199,7 +297,10 @@ def compare(st, op, a, b):
     elif type(op) in _CMP:
         f = _CMP[type(op)]
         if is_concrete(a) and is_concrete(b):
-            return f(a, b)
+            try:
+                return f(a, b)
+            except TypeError as e:
+                raise Unsupported(f"ordering comparison raises {e}") from e
         if is_sym(a, "dt") or is_sym(b, "dt"):
             r = f(dt_ts(a.t), dt_ts(b.t))
         elif is_realish(a) or is_realish(b):
